@@ -110,7 +110,10 @@ def sweep(chk, r, root, df, in_parts, npart, mode, kinds, positions, tag):
     for kind in kinds:
         # the order of the calls differs from run to run (dask orders tasks by their random keys), so a stale listing is
         # planned as "the j-th ls" and a partial write as "the j-th open", for every j
-        keys = [("ls", j) for j in range(1, n_ls + 1)] if kind == "stale" else [("open", j) for j in range(1, n_open + 1)] if kind == "partial" else pos_list
+        keys = [("ls", j) for j in range(1, n_ls + 1)] if kind.startswith("stale") else [("open", j) for j in range(1, n_open + 1)] if kind == "partial" else pos_list
+        if kind.startswith("stale"):
+            # by path rather than by call number: every listed directory gets the stale listing once, whatever the task order
+            keys = [("ls", "@" + b) for b in sorted({os.path.basename(c[1].rstrip("/")) for c in base["log"] if c[0] == "ls"})]
         if "@" in kind:
             # "fnf@rm": the fault at the j-th call of that method, for every j
             kind, meth = kind.split("@")
@@ -156,7 +159,7 @@ def run_cases(chk, tier):
         df = make_frame(r, 8, dup=False)
         # base configuration: every position, OSError; the other kinds wherever they apply
         sweep(chk, r, root, df, 2, 3, "inside", ["oserror"], "all", "base")
-        sweep(chk, r, root, df, 2, 3, "inside", ["fnf", "stale", "partial"], "all", "base-kinds")
+        sweep(chk, r, root, df, 2, 3, "inside", ["fnf", "stale", "stale-last", "stale-first", "partial"], "all", "base-kinds")
         # empty output partitions + external temp dir
         dfd = make_frame(r, 9, dup=True)
         sweep(chk, r, root, dfd, 2, 5, "outside-uuid", ["oserror"], "all", "empties")
